@@ -1,0 +1,22 @@
+//go:build verif
+
+package state
+
+import "net/netip"
+
+// VerifPeekSession returns the session kept for the given router and its
+// encryption session, if any, without creating either of them and without
+// marking the session as in use.
+func (state *State) VerifPeekSession(ip netip.Addr) (*Session, *EncryptionSession) {
+	state.sessionsLock.Lock()
+	defer state.sessionsLock.Unlock()
+
+	s := state.sessions[ip]
+	if s == nil {
+		return nil, nil
+	}
+
+	s.lock.Lock()
+	defer s.lock.Unlock()
+	return s, s.encryption
+}
